@@ -632,6 +632,84 @@ func lockType(c *Ctx, lt lockedType) {
 	}
 }
 
+// lockRefResults: result positions of method fn (of the guarded type) that
+// can carry a reference (map, slice, pointer, chan) to guarded state: a load
+// of a guarded receiver field, or a value the method also stores into one.
+func lockRefResults(lt lockedType, fn *ssa.Function) map[int]string {
+	out := map[int]string{}
+	if fn == nil || len(fn.Params) == 0 {
+		return out
+	}
+	recv := fn.Params[0]
+	fieldOfAddr := func(v ssa.Value) string {
+		if fa, ok := v.(*ssa.FieldAddr); ok && fa.X == ssa.Value(recv) {
+			if f := ir.FieldName(fa.X.Type(), fa.Field); f != lt.mfield {
+				return f
+			}
+		}
+		return ""
+	}
+	stored := map[ssa.Value]string{}
+	for _, b := range fn.Blocks {
+		for _, ins := range b.Instrs {
+			if s, ok := ins.(*ssa.Store); ok {
+				if f := fieldOfAddr(s.Addr); f != "" {
+					stored[s.Val] = f
+				}
+			}
+		}
+	}
+	var classify func(v ssa.Value, d int) string
+	classify = func(v ssa.Value, d int) string {
+		if v == nil || d > 6 {
+			return ""
+		}
+		v = ir.ResolveCell(v)
+		if f, ok := stored[v]; ok {
+			return f
+		}
+		switch x := v.(type) {
+		case *ssa.UnOp:
+			if x.Op == token.MUL {
+				if f := fieldOfAddr(x.X); f != "" {
+					return f
+				}
+				// result cell of a function with defer: any value stored into it
+				if a, ok := x.X.(*ssa.Alloc); ok {
+					sts, _ := ir.CellStores(a)
+					for _, s := range sts {
+						if f := classify(s.Val, d+1); f != "" {
+							return f
+						}
+					}
+				}
+			}
+		case *ssa.Phi:
+			for _, e := range x.Edges {
+				if f := classify(e, d+1); f != "" {
+					return f
+				}
+			}
+		case *ssa.Slice:
+			return classify(x.X, d+1)
+		case *ssa.ChangeType:
+			return classify(x.X, d+1)
+		}
+		return ""
+	}
+	for _, r := range ir.Returns(fn) {
+		for i, v := range r.Results {
+			switch v.Type().Underlying().(type) {
+			case *types.Map, *types.Slice, *types.Pointer, *types.Chan:
+				if f := classify(v, 0); f != "" {
+					out[i] = f
+				}
+			}
+		}
+	}
+	return out
+}
+
 // lockMethod analyses one method. entry is the lock state on entry ("" for
 // API methods; "L"/"R" for helper methods all of whose callers hold the lock);
 // calls collects the lock state at every call of another method of T on the
@@ -671,6 +749,26 @@ func lockMethod(c *Ctx, lt lockedType, fn *ssa.Function, entry string, calls map
 					case *types.Map, *types.Slice, *types.Pointer, *types.Chan:
 						guardedRef[u] = f
 					}
+				}
+			}
+		}
+	}
+	// results of helper methods that hand out a reference to guarded state are guarded too
+	for _, b := range fn.Blocks {
+		for _, ins := range b.Instrs {
+			call, ok := ins.(*ssa.Call)
+			if !ok {
+				continue
+			}
+			h := call.Call.StaticCallee()
+			if h == nil || h == fn || h.Blocks == nil || h.Signature.Recv() == nil || !lt.isPtrTo(h.Signature.Recv().Type()) || len(call.Call.Args) == 0 || call.Call.Args[0] != ssa.Value(recv) {
+				continue
+			}
+			for i, f := range lockRefResults(lt, h) {
+				if h.Signature.Results().Len() == 1 {
+					guardedRef[call] = f
+				} else if ex := extractOf(call, i); ex != nil {
+					guardedRef[ex] = f
 				}
 			}
 		}
@@ -822,10 +920,18 @@ func lockMethod(c *Ctx, lt lockedType, fn *ssa.Function, entry string, calls map
 		} else if held == "" && deferred {
 			retBad[r] = "a deferred unlock runs on a path on which " + lt.mfield + " is not held (" + st.pathString() + ")"
 		}
-		for _, v := range r.Results {
-			if f, ok := guardedRef[st.deref(v)]; ok {
-				misuses = append(misuses, misuse{"?guarded " + f + " returned", "the " + f + " reference itself leaves the method; later uses are outside the lock", P.InstrPos(r), st.pathString()})
-			}
+	}
+	// a reference to guarded state may be returned only by a helper whose callers
+	// all hold the lock at the call; the callers then treat the result as guarded
+	if entry == "" {
+		refRes := lockRefResults(lt, fn)
+		var idxs []int
+		for i := range refRes {
+			idxs = append(idxs, i)
+		}
+		sort.Ints(idxs)
+		for _, i := range idxs {
+			misuses = append(misuses, misuse{"?guarded " + refRes[i] + " returned", "the " + refRes[i] + " reference itself leaves a method that is not a lock-holding helper; later uses are outside the lock", P.Pos(fn.Pos()), ""})
 		}
 	}
 	w.run()
